@@ -582,8 +582,10 @@ inline void userCode(TC& c, Inst& in, Method m, uint8_t sid) {
 				return;
 			}
 			if (p.pingPong) {
-				if (m == Method::ENTRY_GUARD || p.relentless || w.ch.chance(1, 3)) doChange(c, in, sid, static_cast<uint8_t>(sid == ROOT ? w.ch.draw(N) : (sid + 1 + w.ch.draw(2)) % N), HAS_PAYLOAD && w.ch.chance(1, 3));
-				if (w.ch.chance(1, 5)) doCancel(c, in, sid);
+				// relentless: always on to the next state, so that no request repeats the one under evaluation (an
+				// identical request is absorbed and would end the chain before the substitution limit does)
+				if (m == Method::ENTRY_GUARD || p.relentless || w.ch.chance(1, 3)) doChange(c, in, sid, static_cast<uint8_t>(sid == ROOT ? w.ch.draw(N) : (sid + 1 + (p.relentless ? 0 : w.ch.draw(2))) % N), HAS_PAYLOAD && w.ch.chance(1, 3));
+				if (!p.relentless && w.ch.chance(1, 5)) doCancel(c, in, sid);   // (a vetoed round whose redirect repeats the request under evaluation ends the chain)
 				return;
 			}
 			if (!w.ch.chance(p.guardActs, 100)) return;
